@@ -78,7 +78,7 @@ theorem openLoop_forward_gen {known : Verifiers} {text : Bytes} :
         exact ⟨st', hl, by simpa [dedupFrom, hc] using hs, by simpa using hu'⟩
       · have hc' : st.seen.contains (p.name, p.hash) = false := by simpa using hc
         have hver : k.verify text p.sig = true := by
-          obtain ⟨k', hk', hv⟩ := hfirst p (by simp [List.filter_cons, h1, dedupFrom, hc])
+          obtain ⟨k', hk', hv⟩ := hfirst p (by simp [h1, dedupFrom, hc])
           rw [hk] at hk'
           simp only [Lookup.found.injEq] at hk'
           subst hk'; exact hv
